@@ -6,6 +6,7 @@ import FatVerif.Model.FatCodec
 as pure functions on the bytes of one FAT copy, with the scan order and the error behaviour of the Rust code.
 No device faults here: the only errors are `noSpace`, `eof` (read past the end), `writeZero` (write past the end),
 `panic` (u32 overflow with overflow-checks on) and `hang` (fuel exhausted).
+State of /repo: with the repairs of F9 (42d2b2d) and F10 (54cda0a).
 -/
 namespace FatVerif.Fat
 
@@ -107,19 +108,13 @@ def allocStart (hint : Option Nat) (endc : Nat) : Nat :=
   | some n => if n < endc then n else 2
   | none => 2
 
-/-- a panic is not a `Result`: it is not caught by the retry arm -/
-def fatalErr : Err → Bool
-  | .panic => true
-  | .hang => true
-  | _ => false
-
-/-- the two scans: `[start, end)`, then — on ANY error if `start > 2` — `[2, start)` -/
+/-- the two scans: `[start, end)`, then — only after `NotEnoughSpace` and if `start > 2` — `[2, start)`;
+    every other error of the first scan is returned (F9 repaired, commit 42d2b2d) -/
 def allocFind (ft : FatType) (f : Array Nat) (start endc : Nat) : Except Err Nat :=
   match findFree ft f start endc with
   | .ok n => .ok n
   | .error e =>
-    if fatalErr e then .error e
-    else if start > 2 then findFree ft f 2 start
+    if e = .noSpace ∧ start > 2 then findFree ft f 2 start
     else .error e
 
 def allocLinkPrev (ft : FatType) (f1 : Array Nat) (prev : Option Nat) (n : Nat) : Res Nat :=
@@ -179,18 +174,10 @@ def iterItem (ft : FatType) (f : Array Nat) (it : Iter) : Option (Except Err Nat
       | .ok none => none
       | .error e => some (.error e)
 
-/-- does `next()` panic (u32 overflow in the offset computation)? -/
-def iterPanics (ft : FatType) (f : Array Nat) (it : Iter) : Bool :=
-  if it.err then false
-  else match it.cluster with
-    | none => false
-    | some cur =>
-      match chainNext ft f cur with
-      | .error e => fatalErr e
-      | .ok _ => false
-
-/-- `ClusterIterator::free` loop. The result of `next()` is ignored (F10): after an error of `next()` the latch keeps
-    `cluster` unchanged and the loop spins as long as the writes succeed — `hang` when the fuel runs out. -/
+/-- `ClusterIterator::free` loop (F10 repaired, commit 54cda0a): `if let Some(Err(err)) = self.next() { return Err(err) }`
+    — an error of `next()` (in this pure setting: `eof` for a cluster outside the bytes, or the offset-overflow
+    `panic`, which the model carries as an error value) ends the loop before anything is written.
+    `hang` = the fuel ran out with clusters left (see `Props/C03fat.free_never_hangs`: impossible for fuel > size). -/
 def freeLoop (ft : FatType) : Nat → Array Nat → Iter → Nat → Res Nat
   | 0, f, it, cnt => match it.cluster with
     | none => ⟨.ok cnt, f⟩
@@ -199,8 +186,10 @@ def freeLoop (ft : FatType) : Nat → Array Nat → Iter → Nat → Res Nat
     match it.cluster with
     | none => ⟨.ok cnt, f⟩
     | some n =>
-      if iterPanics ft f it then ⟨.error .panic, f⟩
-      else match set ft f n .free with
+      match iterItem ft f it with
+      | some (.error e) => ⟨.error e, f⟩
+      | _ =>
+        match set ft f n .free with
         | .error e => ⟨.error e, setAfter ft f n .free⟩
         | .ok f' => freeLoop ft k f' (iterAdvance ft f it) (cnt + 1)
 
@@ -210,8 +199,10 @@ def freeChain (ft : FatType) (f : Array Nat) (c fuel : Nat) : Res Nat :=
 
 /-- `ClusterIterator::new(fat, ft, c).truncate()` -/
 def truncateChain (ft : FatType) (f : Array Nat) (c fuel : Nat) : Res Nat :=
-  if iterPanics ft f (iterNew c) then ⟨.error .panic, f⟩
-  else match set ft f c .eoc with
+  match iterItem ft f (iterNew c) with
+  | some (.error e) => ⟨.error e, f⟩
+  | _ =>
+    match set ft f c .eoc with
     | .error e => ⟨.error e, setAfter ft f c .eoc⟩
     | .ok f' => freeLoop ft fuel f' (iterAdvance ft f (iterNew c)) 0
 
